@@ -670,7 +670,37 @@ def rw_R8(text, site, log):
     return text
 
 
-GLOBAL_REWRITES = [rw_R2, rw_R3, rw_R6, rw_R8, rw_R16, rw_R15]
+def rw_R11(text, site, log):
+    """core::iter::repeat(X).take(N) -> v_repeat_take(X, N)"""
+    cnt = 0
+    while True:
+        m = re.search(r'\b(?:core|std)::iter::repeat\(', text)
+        if not m:
+            break
+        op = m.end() - 1
+        cl = balanced_end(text, op)
+        x = text[op + 1:cl]
+        rest = text[cl + 1:]
+        m2 = re.match(r'\s*\.take\(', rest)
+        if not m2:
+            raise WeaveError('R11: repeat(..) not followed by .take(..) at ' + site)
+        op2 = cl + 1 + m2.end() - 1
+        cl2 = balanced_end(text, op2)
+        n = text[op2 + 1:cl2]
+        text = text[:m.start()] + 'v_repeat_take(%s, %s)' % (x.strip(), n.strip()) + text[cl2 + 1:]
+        cnt += 1
+    log.add('R11(iter::repeat(X).take(N) -> v_repeat_take(X,N))', site, cnt)
+    return text
+
+
+def rw_R18(text, site, log):
+    """std::cmp::min(A, B) -> v_min_usize(A, B) (the generic std function cannot be given a usize-specific spec)"""
+    text, n = re.subn(r'\b(?:std|core)::cmp::min\(', 'v_min_usize(', text)
+    log.add('R18(cmp::min -> v_min_usize)', site, n)
+    return text
+
+
+GLOBAL_REWRITES = [rw_R2, rw_R3, rw_R6, rw_R8, rw_R16, rw_R11, rw_R15, rw_R18]
 
 
 # --------------------------------------------------------------------------- splicing
